@@ -35,6 +35,39 @@ def material(rng, form=None, iso_ok=True):
     return (e1, e2, nu12, g12, g13, g23, e3, nu13, nu23)
 
 
+def load_triple(rng, scale=1.0, allow_none=True):
+    """(Nxx, Nyy, Nxy): half the time all three non-zero, otherwise a random non-empty subset is non-zero and the others
+    are 0.0 or (the attribute's default) None - single-component pre-loads, pure shear included"""
+    N = [float(x) * scale for x in rng.normal(size=3)]
+    if rng.random() < 0.5:
+        return N
+    keep = rng.random(3) < 0.4
+    if not keep.any():
+        keep[int(rng.integers(0, 3))] = True
+    none = bool(allow_none and rng.random() < 0.5)
+    return [N[i] if keep[i] else (None if none else 0.0) for i in range(3)]
+
+
+def vec_repr(rng, v, lists=True):
+    """the same amplitude vector in another in-memory representation (what callers really pass: a column of a mode
+    matrix, a strided slice, a list); returns (object, kind).  Read-only arrays are left out: the compiled kernels
+    refuse them with a ValueError, which is a rejection and not a result"""
+    v = np.asarray(v, dtype=float)
+    kind = str(rng.choice(['contiguous', 'strided', 'column', 'list', 'reversed'] if lists else ['contiguous', 'strided', 'column', 'reversed']))
+    if kind == 'strided':
+        big = rng.normal(size=2 * v.size); big[::2] = v
+        return big[::2], kind
+    if kind == 'column':
+        M = np.asfortranarray(rng.normal(size=(v.size, 3))); M = np.ascontiguousarray(M); M[:, 1] = v
+        return M[:, 1], kind
+    if kind == 'list':
+        return [float(x) for x in v], kind
+    if kind == 'reversed':
+        w = v[::-1].copy()
+        return w[::-1], kind
+    return v.copy(), kind
+
+
 def angle(rng):
     k = rng.integers(0, 6)
     if k == 0:
